@@ -32,6 +32,11 @@ fn c19_all() {
         ("empty_docs", "package x; /** */ interface I { /***/ void f(/** */ int a); /**\n *\n */ const int K = 1; /** d */ void g(); }"),
         ("values_and_annotations", "package x; @A(a=1, b=\"s\", c) parcelable W { @B int a = 3; String s = \"x\"; int[] v = {1, 2}; List l; }"),
         ("codes", "package x; interface I { void a() = 0; void b() = 4294967295; oneway void c(in Map<String,String> m) = 7; }"),
+        // every construct that may carry annotations / documentation / a value carries them (a field added to a node later shows up here)
+        ("annotated_interface", "package x; /** i */ @A @B(k=1, s=\"v\", flag) oneway interface I { /** m */ @C @D(x=2) void f(/** a */ @E in @F(y=3) int[] a, @G String); /** c */ @H(z=\"z\") const String K = \"k\"; }"),
+        ("annotated_parcelable", "package x; /** p */ @A(a=1) parcelable W { /** f */ @B @C(b=\"b\") List<String> f = {}; /** c */ @D const int K = -1; @E Map<String, W[]> m; }"),
+        ("annotated_enum", "package x; /** e */ @Backing(type=\"int\") enum E2 { /** a */ @Deprecated A = 1, @Hide @SystemApi(client=\"x\") B, /** c */ C = \"c\", @X D = -.5f, }"),
+        ("annotated_fwd", "package x; import a.b.C; import d.E; parcelable F1; parcelable g.F2; @A interface I { @B C f(@C in E e, out F1[] f, in g.F2 g); }"),
     ];
     let mut ok = true;
     for (n, s) in cases.iter() {
